@@ -1,0 +1,15 @@
+//go:build verif
+
+package cs
+
+// VerifPostSolve, when set, is called with the constraint system and the
+// solution (*R1CSSolution or *SparseR1CSSolution) right before Solve returns
+// it. It only exists in builds with the "verif" tag and is used by external
+// verification harnesses to observe or alter the solution handed to a prover.
+var VerifPostSolve func(cs any, solution any)
+
+func verifPostSolve(cs *system, solution any) {
+	if h := VerifPostSolve; h != nil {
+		h(cs, solution)
+	}
+}
